@@ -107,7 +107,7 @@ pub fn tok_case(p: TokCaseParams) -> BoxedStrategy<TokCase> {
         } else {
             Just(None).boxed()
         },
-        vec((any::<bool>(), 0u8..10), 2..=3),
+        vec((any::<bool>(), 0u8..10, 0u8..8), 2..=3),
         vec(raw_sentence(p.max_chunks), p.n_sentences),
         any::<i16>(),
     )
@@ -138,7 +138,8 @@ pub fn tok_case(p: TokCaseParams) -> BoxedStrategy<TokCase> {
             };
             let mut opts: Vec<TokOpts> = raw_opts
                 .iter()
-                .map(|&(sp, g)| TokOpts {
+                .map(|&(sp, g, history)| TokOpts {
+                    history,
                     ignore_space: sp && space_ok,
                     max_grouping_len: match g {
                         0..=2 => 0,
